@@ -1034,6 +1034,23 @@ func (l *lpRun) race() error {
 			} else {
 				l.c.Count("lp:query-closed-under-it")
 			}
+		case closedNow:
+			// the query overlapped Close. A view taken after Close began is not `ok` in the model
+			// (no active table any more, the memtable rows are only in the log; the owner of the shard
+			// keeps queries away while it closes it): rows may be missing, but every row that is
+			// returned must be the acknowledged one
+			want := rowsByKey(specAfter.read(q.ms, q.asc))
+			got := rowsByKey(qRows)
+			for _, k := range hx.SortedKeys(got) {
+				if got[k] != want[k] {
+					l.viol(qLine, "torn_read", fmt.Sprintf("history %d (%s): %s overlapped Close and returned %s=%q, acknowledged writes give %q", l.idx, l.kinds.String(), q, k, got[k], want[k]))
+				}
+			}
+			if len(got) < len(want) {
+				l.c.Count("lp:query-overlapping-close:rows-missing")
+			} else {
+				l.c.Count("lp:query-overlapping-close:complete")
+			}
 		case w == nil:
 			if want := specBefore.read(q.ms, q.asc); qRows != want {
 				l.viol(qLine, "torn_read", fmt.Sprintf("history %d (%s): %s raced with %s and answered %q, acknowledged writes give %q", l.idx, l.kinds.String(), q, map[bool]*lpOp{true: b, false: a}[q == a], qAns, want))
